@@ -144,5 +144,14 @@ structure St where
   myNet : Prefix := ⟨⟨.v4, 0⟩, 32⟩
   model : Option LHState := none
   force : Option CfgV := none        -- the specification's configuration in force (`none`: no lighthouse)
+  /-- a reload failed in an earlier block of `LightHouse.reload` and no later reload has stored a table since:
+  the known finding `stale-after-failed-reload` may show. -/
+  poisoned : Bool := false
+
+/-- while `poisoned`, a violation that is exactly the modelled behaviour of the known defect gets its class. -/
+def knownClass (poisoned : Bool) (model impl verdict : String) : String :=
+  if poisoned && impl == model && verdict.startsWith "bad " then
+    "bad stale-after-failed-reload " ++ String.ofList (verdict.toList.drop 4)
+  else verdict
 
 end Nebula.Driver.CalcRemoteCfg
